@@ -151,6 +151,16 @@ Fixpoint leaves (pre : str) (s : schema) : list (str * (ty * aval)) :=
          end) fs
   end.
 
+(* ---------- variants of the code ---------- *)
+(* The model follows the code AS REPAIRED ([fixed]); the three repairs can be switched off to state what was wrong before:
+   v_after_file  linkFlagKeysToStructureKeys runs after the configuration file has been merged (before: on the defaults only)
+   v_strip       linkFlagKeysToStructureKeys derives the flag key of a structure key with generateEnvVarConfigKeys, which strips
+                 the environment prefix when the key starts with it (repaired: generateEnvVarConfigKey, separators only)
+   v_empty_sep   with an empty prefix cleanseEnvVar / DetermineConfigurationEnvironmentVariables still emit the separator ("_PORT") *)
+Record variant := mkV { v_after_file : bool; v_strip : bool; v_empty_sep : bool }.
+Definition fixed : variant := mkV true false false.
+Definition original : variant := mkV false true true.
+
 (* ---------- key / environment-variable name derivation (service_configuration.go:246-281) ---------- *)
 Definition flagprefix : str := Eval compute in str_of "uniqueprefixforprivateflagbindingkeys123".
 
@@ -162,8 +172,14 @@ Definition short_of (envVar prefix : str) : str :=
 (* generateEnvVarConfigKey *)
 Definition flagkey_of_short (short : str) : str := flagprefix ++ [DOT] ++ repl USC DOT short.
 (* cleanseEnvVar *)
-Definition cleanse (prefix short : str) : str := upper (repl DOT USC (prefix ++ [USC] ++ short)).
-Definition flagkey (prefix key : str) : str := flagkey_of_short (short_of key prefix).
+Definition cleanse (vr : variant) (prefix short : str) : str :=
+  match prefix with
+  | [] => if v_empty_sep vr then upper (repl DOT USC ([USC] ++ short)) else upper (repl DOT USC short)
+  | _ => upper (repl DOT USC (prefix ++ [USC] ++ short))
+  end.
+(* the private flag key linkFlagKeysToStructureKeys derives for a key of the structure (:296) *)
+Definition flagkey (vr : variant) (prefix key : str) : str :=
+  if v_strip vr then flagkey_of_short (short_of key prefix) else flagkey_of_short key.
 Definition is_flagkey (k : str) : bool := has_prefix k flagprefix.
 
 (* viper.mergeWithEnvPrefix followed by getEnv's key replacer ("." -> "_"): the variable AutomaticEnv consults for a key *)
@@ -201,9 +217,9 @@ Definition getenv (w : world) (name : str) : option val :=
 (* BindFlagToEnv: viper.pflags[shortKey] = flag ; viper.env[shortKey] = [cleansedEnvVar] *)
 Definition bound_flags (w : world) : kmap (ty * aval * option aval) :=
   map (fun f => match f with (ev, t, d, s) => (flagkey_of_short (short_of ev (w_prefix w)), (t, d, s)) end) (w_flags w).
-Definition bound_envs (w : world) : kmap str :=
+Definition bound_envs (vr : variant) (w : world) : kmap str :=
   map (fun f => match f with (ev, _, _, _) =>
-         let sh := short_of ev (w_prefix w) in (flagkey_of_short sh, cleanse (w_prefix w) sh) end) (w_flags w).
+         let sh := short_of ev (w_prefix w) in (flagkey_of_short sh, cleanse vr (w_prefix w) sh) end) (w_flags w).
 
 (* viper.isPathShadowedInAutoEnv / isPathShadowedInFlatMap *)
 Definition env_shadow (w : world) (k : str) : bool :=
@@ -253,8 +269,8 @@ Definition find_key (w : world) (cfg : kmap val) (s : session) (k : str) : optio
   end.
 
 (* one iteration of the loop of linkFlagKeysToStructureKeys (:290-310) for a non-flag key *)
-Definition link_step (w : world) (bf : kmap (ty * aval * option aval)) (be : kmap str) (cfg : kmap val) (s : session) (k : str) : session :=
-  let fk := flagkey (w_prefix w) k in
+Definition link_step (vr : variant) (w : world) (bf : kmap (ty * aval * option aval)) (be : kmap str) (cfg : kmap val) (s : session) (k : str) : session :=
+  let fk := flagkey vr (w_prefix w) k in
   match find_flag w bf be fk false with
   | Some v => set_ov k v s
   | None =>
@@ -268,10 +284,10 @@ Definition link_step (w : world) (bf : kmap (ty * aval * option aval)) (be : kma
   end.
 
 (* [bf], [be]: viper.pflags and viper.env as BindFlagToEnv left them (computed once) *)
-Definition link (w : world) (cfg : kmap val) (keys : list str) : session :=
+Definition link (vr : variant) (w : world) (cfg : kmap val) (keys : list str) : session :=
   let bf := bound_flags w in
-  let be := bound_envs w in
-  fold_left (link_step w bf be cfg) keys (mkS [] []).
+  let be := bound_envs vr w in
+  fold_left (link_step vr w bf be cfg) keys (mkS [] []).
 
 (* the config map: MergeConfigMap(defaults) then MergeInConfig(file) — file entries win *)
 Definition defaults_cfg (sc : schema) : kmap val := map (fun l => (fst l, rep_default (snd (snd l)))) (leaves [] sc).
@@ -282,20 +298,18 @@ Fixpoint dedup (seen : list str) (l : list str) : list str :=
   | k :: r => if mem k seen then dedup seen r else k :: dedup (k :: seen) r
   end.
 
-(* LoadFromEnvironment up to Unmarshal: the final session and config map.
-   [after_file] = linkFlagKeysToStructureKeys runs after the file has been merged (the repaired code, :76-91);
-   false = the code before the repair, where it ran on the defaults only. *)
-Definition prepared (after_file : bool) (w : world) (sc : schema) : kmap val * session :=
+(* LoadFromEnvironment up to Unmarshal: the final session and config map. *)
+Definition prepared (vr : variant) (w : world) (sc : schema) : kmap val * session :=
   let dc := defaults_cfg sc in
   let full := file_cfg w ++ dc in
   let skeys := map fst (leaves [] sc) in
-  if after_file
-  then (full, link w full (filter (fun k => negb (is_flagkey k)) (dedup [] (skeys ++ map fst (file_cfg w)))))
-  else (full, link w dc (filter (fun k => negb (is_flagkey k)) skeys)).
+  if v_after_file vr
+  then (full, link vr w full (filter (fun k => negb (is_flagkey k)) (dedup [] (skeys ++ map fst (file_cfg w)))))
+  else (full, link vr w dc (filter (fun k => negb (is_flagkey k)) skeys)).
 
 (* viper.Unmarshal: every leaf gets Get(key), weakly decoded; nil leaves the zero value *)
-Definition final_val (after_file : bool) (w : world) (sc : schema) (k : str) : option val :=
-  let '(cfg, s) := prepared after_file w sc in find_key w cfg s k.
+Definition final_val (vr : variant) (w : world) (sc : schema) (k : str) : option val :=
+  let '(cfg, s) := prepared vr w sc in find_key w cfg s k.
 
 Definition decode_leaf (t : ty) (o : option val) : option aval :=
   match o with None => Some (zero_of t) | Some v => decode t v end.
@@ -307,8 +321,8 @@ Fixpoint sequence {A} (l : list (option A)) : option (list A) :=
   | Some x :: r => match sequence r with Some xs => Some (x :: xs) | None => None end
   end.
 
-Definition unmarshal (after_file : bool) (w : world) (sc : schema) : option (list aval) :=
-  let '(cfg, s) := prepared after_file w sc in
+Definition unmarshal (vr : variant) (w : world) (sc : schema) : option (list aval) :=
+  let '(cfg, s) := prepared vr w sc in
   sequence (map (fun l => decode_leaf (fst (snd l)) (find_key w cfg s (fst l))) (leaves [] sc)).
 
 (* ---------- validation (validation.go, error.go) ---------- *)
@@ -367,8 +381,8 @@ Inductive outcome :=
 | Invalid (vs : list aval) (tree : list str) (mspath : str)
 | MarshalErr.
 
-Definition load (after_file : bool) (w : world) (sc : schema) : outcome :=
-  match unmarshal after_file w sc with
+Definition load (vr : variant) (w : world) (sc : schema) : outcome :=
+  match unmarshal vr w sc with
   | None => MarshalErr
   | Some vs =>
       let vals := combine (map fst (leaves [] sc)) vs in
@@ -393,8 +407,11 @@ Fixpoint flat (s : schema) : list str :=        (* keys of flattenDefaultsMap(de
               end) ++ go r
          end) fs
   end.
-Definition reported (prefix : str) (s : schema) : list str :=
-  map (fun k => upper prefix ++ [USC] ++ k) (flat s).
+Definition reported (vr : variant) (prefix : str) (s : schema) : list str :=
+  map (fun k => match prefix with
+                | [] => if v_empty_sep vr then [USC] ++ k else k
+                | _ => upper prefix ++ [USC] ++ k
+                end) (flat s).
 (* the names loading consults for the fields of the structure *)
 Definition honoured (prefix : str) (s : schema) : list str :=
   map (fun l => autoenv prefix (fst l)) (leaves [] s).
@@ -431,8 +448,8 @@ Record case := mkCase {
 }.
 
 Definition check_case (c : case) : bool :=
-  outcome_eqb (load true (c_world c) (c_schema c)) (c_obs c)
+  outcome_eqb (load fixed (c_world c) (c_schema c)) (c_obs c)
   && match c_names c with
-     | Some ns => same_set (reported (w_prefix (c_world c)) (c_schema c)) ns
+     | Some ns => same_set (reported fixed (w_prefix (c_world c)) (c_schema c)) ns
      | None => true
      end.
